@@ -28,3 +28,20 @@ void h_poly_bbox(void) {
     VF_CALL_V(Polygon__bounding_box, this_, min, max);
 }
 #endif
+
+#ifdef VF_ENTRY_h_poly_bbox_rep
+void h_poly_bbox_rep(void) {
+    VF_IN(u64, IN_n); VF_IN(u64, IN_gk); VF_IN(u64, IN_next); VF_IN_ARR(IN_ex); VF_IN_ARR(IN_ey);
+    GK = IN_gk;
+    memset(&c09_poly, 0, sizeof c09_poly);
+    VF_ASSUME(IN_n <= 0x10000000);
+    c09_poly.point_array.count = IN_n; c09_poly.point_array.capacity = IN_n;
+    c09_poly.point_array.items = IN_n ? (Vec2 *)malloc(sizeof(Vec2) * IN_n) : NULL;
+    VF_ASSUME(IN_n == 0 || c09_poly.point_array.items != NULL);
+    if (GK < IN_n) { IN_vx = nondet_double(); IN_vy = nondet_double(); c09_poly.point_array.items[GK].x = IN_vx; c09_poly.point_array.items[GK].y = IN_vy; }
+    c09_poly.repetition.type = RepetitionType_Rectangular;   /* the kind does not matter: get_extrema is modelled */
+    Polygon *this_ = &c09_poly;
+    Vec2 *min = &OUT_min, *max = &OUT_max;
+    Polygon__bounding_box(this_, min, max);
+}
+#endif
